@@ -1341,6 +1341,16 @@ class BinaryOperator(SymbolicExpression, ABC):
         cache_enter_count.values[self._node_.name] = cache.enter_count
         cache_search_count.values[self._node_.name] = cache.search_count
 
+    def mark_cache_covered(self, sources: Dict[int, HashedValue], cache: Optional[IndexedCache] = None):
+        """
+        Tell the cache that all outputs for the given sources have been produced, this must only be called after the
+        evaluation under these sources ran to completion.
+        """
+        if not is_caching_enabled():
+            return
+        cache = self._cache_ if cache is None else cache
+        cache.mark_covered(sources)
+
     def update_cache(self, values: Dict[int, HashedValue], cache: Optional[IndexedCache] = None):
         if not is_caching_enabled():
             return
@@ -1545,6 +1555,7 @@ class Comparator(BinaryOperator):
                     values[self._id_] = HashedValue(res)
                     self.update_cache(values)
                     yield values
+        self.mark_cache_covered(sources)
 
     def apply_operation(self, operand_values: Dict[int, HashedValue]):
         return self.operation(operand_values[self.left._id_].value, operand_values[self.right._id_].value)
@@ -1633,6 +1644,7 @@ class AND(LogicalOperator):
                         self._is_false_ = self.right._is_false_
                         self.update_cache(right_value, self.right_cache)
                         yield output
+                    self.mark_cache_covered(left_value, self.right_cache)
                 finally:
                     self.right._eval_parent_ = right_prev
         finally:
@@ -1708,7 +1720,9 @@ class Union(OR):
         finally:
             self.left._eval_parent_ = left_prev
         self.left_evaluated = False
+        original_sources = copy(sources)
         yield from self.evaluate_right(sources)
+        self.mark_cache_covered(original_sources)
 
     def evaluate_right(self, sources: Optional[Dict[int, HashedValue]]) -> Iterable[Dict[int, HashedValue]]:
         right_values = self.right._evaluate__(sources, yield_when_false=self._yield_when_false_)
@@ -1772,6 +1786,7 @@ class ElseIf(OR):
                                     continue
                             self.update_cache(right_value, self.right_cache)
                             yield output
+                        self.mark_cache_covered(left_value, self.right_cache)
                     finally:
                         self.right._eval_parent_ = right_prev
                 else:
